@@ -40,6 +40,9 @@ type c06Case struct {
 	// error of kind FailKind (a full transmit queue, as the socket reports it).
 	FailKind string
 	FailIdx  int
+	// FailAll: the fault is persistent — every write of that connection from the
+	// FailIdx-th multicast write on fails, unicast answers included.
+	FailAll bool
 }
 
 func c06Err(kind string) error {
@@ -277,12 +280,16 @@ func c06Run(t *testing.T, r *vlib.Run, c *c06Case) {
 					return
 				}
 				k := 0
+				broken := false
 				cn.WriteErr = func(_ int, dst netip.Addr) error {
-					if !dst.IsMulticast() {
-						return nil
+					if dst.IsMulticast() {
+						k++
+						if k-1 == c.FailIdx {
+							broken = c.FailAll
+							return c06Err(c.FailKind)
+						}
 					}
-					k++
-					if k-1 == c.FailIdx {
+					if broken {
 						return c06Err(c.FailKind)
 					}
 					return nil
@@ -455,6 +462,16 @@ func TestVerifC06(t *testing.T) {
 							r.Count("send_failure_scenarios", 1)
 						}
 						run(c)
+						// the same with a persistent fault and a unicast solicitation whose
+						// answer is outstanding when the multicast RA is refused: two sends
+						// fail together
+						c2 := *c
+						c2.ID, c2.FailAll = c.ID+"/persistent", true
+						c2.Evs = []c06Ev{{At: base + o}, {At: base + o + time.Duration(i+1)*7*vMs, Unicast: true}, {At: base + o + 2*time.Second, Unicast: true}}
+						if r.Mine(c2.ID) {
+							r.Count("send_failure_scenarios", 1)
+						}
+						run(&c2)
 					}
 				}
 			}
